@@ -351,15 +351,17 @@ func opAPIErr() error {
 					hdrs["Authorization"] = v
 				}
 			}
+			what := fmt.Sprintf("%s %v: %s %s body=%.80q", row.Route, row.P, method, path, body)
+			if len(what) > 400 {
+				what = what[:400]
+			}
+			// which request is being served, should the process not survive it
+			_ = os.WriteFile(os.Getenv("VERIF_OUT")+".progress", []byte(what), 0o644)
 			before, _ := target.Digest()
 			code, rb := target.HTTP(method, "/api/v1"+path, body, hdrs)
 			after, _ := target.Digest()
 			res.Queries++
 			res.Stats["exp:"+row.Exp]++
-			what := fmt.Sprintf("%s %v: %s %s body=%.80q", row.Route, row.P, method, path, body)
-			if len(what) > 400 {
-				what = what[:400]
-			}
 			fail := func(exp, got string) { out = append(out, Mismatch{Beh: ri, Step: k, Kind: "api", Exp: what + " -> " + exp, Got: got}) }
 			switch {
 			case code >= 500:
